@@ -259,14 +259,16 @@ def rule_image_fire(P):
     for f in list(images.values()) + list(fires.values()):
         d = defs(f)
         R.functions.add(f["inst"])
-        cu = [re.search(r"newWritable\(([^,]+),([^,]+),", x) for x in d.get("Cu", [])]
-        ks = [re.search(r"getLevelSize\(([^)]+)\)", x) for x in d.get("kSize", [])]
-        if not cu or not ks or not all(cu) or not all(ks):
-            raise AnalysisBroken("sibling.image-fire: Cu / kSize definitions not found in %s" % f["inst"])
+        # the result node is whatever local newWritable() defines; the index range is the local defined from getLevelSize() of the same forest
+        cu = [m for m in (re.search(r"newWritable\(([^,]+),([^,]+),", x) for xs in d.values() for x in xs) if m]
+        forests = {m.group(1) for m in cu}
+        ks = [m for m in (re.search(r"([\w>-]+)->getLevelSize\(([^)]+)\)", x) for xs in d.values() for x in xs) if m and m.group(1) in forests]
+        if not cu or not ks:
+            raise AnalysisBroken("sibling.image-fire: result-node / level-size definitions not found in %s" % f["inst"])
         iid = "%s: indices written into the result node range over the size of its own level" % f["inst"].replace(M, "")[:100]
         R.paths += 1
         lv_node = {m.group(2) for m in cu}
-        lv_size = {m.group(1) for m in ks}
+        lv_size = {m.group(2) for m in ks}
         if lv_node == lv_size and len(lv_node) == 1:
             R.ok(iid, where(f))
         else:
